@@ -238,7 +238,9 @@ def decide(pid, tier, seed):
         spec_props = ["C13"] if tname in value_types and set(lost_tr) & {"Clone", "PartialEq", "Eq"} else []
         weak_props = {"NodeId": ["C05", "C06", "C11"], "NodeStamp": ["C06"], "NodeEdge": ["C09"], "Arena": ["C05"]}.get(tname, []) if set(lost_tr) & {"PartialEq", "Eq"} else []
         fails.append({"function": "type " + tname, "obligation": "type %s: derives %s (C13.value_semantics_are_the_derived_ones)" % (tname, ", ".join(lost_tr)),
-                      "props": spec_props + weak_props, "specific": bool(spec_props) and pid == "C13", "line": 0,
+                      # (a hand-written impl may well be equivalent to the derived one: undecided unless the witness step
+                      # finds histories on which clone / == misbehave)
+                      "props": spec_props + weak_props, "specific": False, "line": 0,
                       "message": "the contracts take Clone / PartialEq / Eq / Copy / Default of this type to be the derived ones; /repo no longer derives %s "
                                  "(a hand-written impl is outside the verified text)" % ", ".join(lost_tr),
                       "rendered": "contracts: #[derive(%s)]\n/repo:     #[derive(%s)]\n" % (", ".join(d["contracts"]), ", ".join(d["repo"]))})
